@@ -5,7 +5,7 @@
 //	c04 exec   <stream> <ops-in> <impl-out>
 //	c04 oracle <stream> <ops-in> <verdict-out>
 //
-// Streams: sotw, delta.  The Lean driver (lean/IstioModel/C04/Driver.lean) consumes the same
+// Streams: sotw, delta, loop (closed loop with a conformant client, see Protocol.lean).  The Lean driver (lean/IstioModel/C04/Driver.lean) consumes the same
 // ops file; outputs are compared line by line.
 package main
 
@@ -48,11 +48,19 @@ func main() {
 	case "gen":
 		seed, _ := strconv.ParseUint(os.Args[3], 10, 64)
 		n, _ := strconv.Atoi(os.Args[4])
-		gen(os.Args[2], seed, n, os.Args[5])
+		if os.Args[2] == "loop" {
+			genLoop(seed, n, os.Args[5])
+		} else {
+			gen(os.Args[2], seed, n, os.Args[5])
+		}
 	case "exec":
 		execOps(os.Args[2], os.Args[3], os.Args[4])
 	case "oracle":
-		oracle(os.Args[2], os.Args[3], os.Args[4])
+		if os.Args[2] == "loop" {
+			oracleLoop(os.Args[3], os.Args[4])
+		} else {
+			oracle(os.Args[2], os.Args[3], os.Args[4])
+		}
 	default:
 		os.Exit(2)
 	}
@@ -185,10 +193,197 @@ func execOps(stream, in, outp string) {
 	out := wire.Create(outp)
 	defer out.Close()
 	s := newSUT()
+	l := &loopSys{sut: s}
 	for _, f := range wire.ReadLines(in) {
-		out.Line(s.apply(f))
+		if stream == "loop" {
+			out.Line(l.apply(f))
+		} else {
+			out.Line(s.apply(f))
+		}
 		out.Flush()
 	}
+}
+
+// ---------------------------------------------------------------- closed loop (stream loop)
+//
+// The real ShouldRespond / Send composed with a conformant client over two FIFO channels, as in
+// lean/IstioModel/C04/Protocol.lean: the client logic and the channels live here, every server
+// decision is taken by the real code.
+
+type loopReq struct {
+	names []string
+	nonce string
+	err   string // "-" or e:<msg>
+}
+
+type loopSys struct {
+	sut      *sut
+	ty       string
+	cnames   []string
+	cnonce   string
+	c2s      []loopReq
+	s2c      []string
+	sentAny  bool
+	lastNack bool
+}
+
+func (l *loopSys) show() string {
+	c := "-"
+	if len(l.c2s) > 0 {
+		var parts []string
+		for _, r := range l.c2s {
+			parts = append(parts, fmt.Sprintf("%s/%s/%s", wire.Enc(r.nonce), wire.EncSet(r.names), r.err))
+		}
+		c = strings.Join(parts, ";")
+	}
+	return fmt.Sprintf("%s | c2s=%s s2c=%s cnonce=%s cnames=%s sent=%s nack=%s", l.sut.showState(), c,
+		wire.EncList(l.s2c), wire.Enc(l.cnonce), wire.EncSet(l.cnames), wire.B(l.sentAny), wire.B(l.lastNack))
+}
+
+func (l *loopSys) apply(f []string) (out string) {
+	defer func() {
+		if r := recover(); r != nil {
+			out = "crash"
+		}
+	}()
+	url := typeURL[l.ty]
+	switch f[0] {
+	case "case":
+		*l.sut = *newSUT()
+		*l = loopSys{sut: l.sut, ty: f[3], cnonce: wire.Dec(f[4])}
+		return "ok"
+	case "cchange":
+		l.cnames = wire.DecList(f[1])
+		l.c2s = append(l.c2s, loopReq{l.cnames, l.cnonce, "-"})
+		l.sentAny, l.lastNack = true, false
+	case "crecv":
+		if len(l.s2c) == 0 {
+			break
+		}
+		l.cnonce, l.s2c = l.s2c[0], l.s2c[1:]
+		l.c2s = append(l.c2s, loopReq{l.cnames, l.cnonce, f[1]})
+		l.sentAny, l.lastNack = true, f[1] != "-"
+	case "srecv":
+		n := wire.Dec(f[1])
+		if len(l.c2s) == 0 || n == "" {
+			break
+		}
+		m := l.c2s[0]
+		l.c2s = l.c2s[1:]
+		respond, _ := xds.ShouldRespond(l.sut.proxy, "verif", &discovery.DiscoveryRequest{
+			TypeUrl: url, ResourceNames: m.names, ResponseNonce: m.nonce, ErrorDetail: errDetail(m.err),
+		})
+		if respond {
+			l.sut.ss.fail = false
+			_ = xds.Send(l.sut.con, &discovery.DiscoveryResponse{TypeUrl: url, Nonce: n})
+			l.s2c = append(l.s2c, n)
+		}
+	case "spush":
+		n := wire.Dec(f[1])
+		if n == "" || l.sut.proxy.WatchedResources[url] == nil {
+			break
+		}
+		l.sut.ss.fail = false
+		_ = xds.Send(l.sut.con, &discovery.DiscoveryResponse{TypeUrl: url, Nonce: n})
+		l.s2c = append(l.s2c, n)
+	case "always":
+		if w := l.sut.proxy.WatchedResources[url]; w != nil {
+			w.AlwaysRespond = true
+		}
+	default:
+		return "bad-op"
+	}
+	return l.show()
+}
+
+func genLoop(seed uint64, n int, outp string) {
+	out := wire.Create(outp)
+	defer out.Close()
+	root := wire.NewRng(seed ^ 0x100C04)
+	for c := 0; c < n; c++ {
+		r := root.Fork()
+		ty := wire.Pick(r, typeOrder)
+		out.Line("case", strconv.Itoa(c), "loop", ty, wire.Enc(wire.Pick(r, []string{"", "old", "n1"})))
+		length := 2 + r.Intn(40)
+		ctr := 0
+		nonce := func() string {
+			// nonces need not be unique: sometimes reuse
+			if r.Chance(1, 8) {
+				return wire.Pick(r, []string{"n1", "n2", "old", ""})
+			}
+			ctr++
+			return "n" + strconv.Itoa(ctr)
+		}
+		for i := 0; i < length; i++ {
+			switch r.Intn(10) {
+			case 0, 1:
+				out.Line("cchange", wire.EncList(genNames(r, true)))
+			case 2, 3, 4:
+				if r.Chance(1, 6) {
+					out.Line("crecv", "e:"+wire.Enc("rejected"))
+				} else {
+					out.Line("crecv", "-")
+				}
+			case 5, 6, 7:
+				out.Line("srecv", wire.Enc(nonce()))
+			case 8:
+				out.Line("spush", wire.Enc(nonce()))
+			default:
+				out.Line("always")
+			}
+		}
+		// drain to quiescence so that the quiescent clause is exercised
+		if r.Chance(3, 4) {
+			for k := 0; k < 12; k++ {
+				out.Line("srecv", wire.Enc(nonce()))
+				out.Line("crecv", "-")
+			}
+		}
+	}
+}
+
+// oracleLoop checks the last sentence of the property on the real code: at every quiescent point
+// (both channels empty) after the client has spoken and not rejected, record == client's names.
+func oracleLoop(in, outp string) {
+	out := wire.Create(outp)
+	defer out.Close()
+	s := newSUT()
+	l := &loopSys{sut: s}
+	verdict, open, idx := "", false, 0
+	flush := func() {
+		if open {
+			if verdict == "" {
+				verdict = "OK"
+			}
+			out.Line(verdict)
+		}
+	}
+	for _, f := range wire.ReadLines(in) {
+		if f[0] == "case" {
+			flush()
+			l.apply(f)
+			verdict, open, idx = "", true, 0
+			continue
+		}
+		idx++
+		if l.apply(f) == "crash" && verdict == "" {
+			verdict = fmt.Sprintf("FAIL never-crashes op=%d", idx)
+		}
+		if len(l.c2s) == 0 && len(l.s2c) == 0 && l.sentAny && !l.lastNack && verdict == "" {
+			url := typeURL[l.ty]
+			w := l.sut.proxy.WatchedResources[url]
+			ok := false
+			if len(l.cnames) == 0 && !xds.IsWildcardTypeURL(url) {
+				ok = w == nil
+			} else {
+				ok = w != nil && sameSet(w.ResourceNames, l.cnames)
+			}
+			if !ok {
+				verdict = fmt.Sprintf("FAIL quiescent-record-matches op=%d %s", idx, wire.Enc(l.show()))
+			}
+		}
+	}
+	flush()
 }
 
 // ---------------------------------------------------------------- generator
